@@ -146,6 +146,12 @@ def replay_scope(run, hvsrpy, by_range, freq, scale, ascale, rng, stride, cfg):
             d.update_peaks_bounded(search_range_in_hz=r)
             judge(run, "HvsrDiffuseField.update_peaks_bounded", k, idx_of(freq, d.peak_frequency),
                   d.peak_amplitude, amp[j], scale, ascale)
+            # ... and a later mean_curve_peak() with DEFAULT arguments searches the whole curve again
+            try:
+                f, a = d.mean_curve_peak()
+            except ValueError:
+                f, a = None, None
+            judge(run, "HvsrDiffuseField.mean_curve_peak[default range after a bounded update]", by_range[(NOEND, NOEND)][j], idx_of(freq, f), a, amp[j], scale, ascale)
             t = HvsrTraditional(freq, amp[j:j + 1])
             t.update_peaks_bounded(search_range_in_hz=r)
             for dist in ("normal", "lognormal") if min(k["c"]) > 0 else ("normal",):
